@@ -782,6 +782,18 @@ func (f *frame) call(c *ast.CallExpr) {
 				f.exprs(c.Args)
 				return
 			}
+			// methods of a shared local of an atomic type (atomic.Bool, atomic.Int64 ...)
+			if id, ok := sel.X.(*ast.Ident); ok && f.shared != nil {
+				if obj := info.Uses[id]; obj != nil && f.shared[obj] && isAtomicType(obj.Type()) {
+					write := !strings.HasPrefix(sel.Sel.Name, "Load")
+					f.record(f.tname, id.Name, write, true, sel)
+					if strings.HasPrefix(sel.Sel.Name, "Add") || strings.HasPrefix(sel.Sel.Name, "Swap") || strings.HasPrefix(sel.Sel.Name, "CompareAndSwap") {
+						f.record(f.tname, id.Name, false, true, sel)
+					}
+					f.exprs(c.Args)
+					return
+				}
+			}
 			// a method of the same object: inline
 			if callee, ok := s.Obj().(*types.Func); ok && f.recv != nil && (f.rootedAtRecv(sel.X)) {
 				if decl := f.a.methods[callee]; decl != nil && decl.Recv != nil && len(decl.Recv.List) == 1 {
@@ -1117,8 +1129,21 @@ func analyseFuncClosures(a *analyser, fd *ast.FuncDecl) {
 			}
 			return true
 		})
+		atomicUse := map[token.Pos]bool{}
 		ast.Inspect(body, func(n ast.Node) bool {
-			if id, ok := n.(*ast.Ident); ok && shared[info.Uses[id]] && id.Pos() > firstGo && !inGoLit(id.Pos()) && !inLocalLit(id.Pos()) && !written[id.Pos()] {
+			if c, ok := n.(*ast.CallExpr); ok {
+				if sel, ok := c.Fun.(*ast.SelectorExpr); ok {
+					if id, ok := sel.X.(*ast.Ident); ok && shared[info.Uses[id]] && isAtomicType(info.Uses[id].Type()) &&
+						id.Pos() > firstGo && !inGoLit(id.Pos()) && !inLocalLit(id.Pos()) {
+						atomicUse[id.Pos()] = true
+						f.record(tname, id.Name, !strings.HasPrefix(sel.Sel.Name, "Load"), true, id)
+					}
+				}
+			}
+			return true
+		})
+		ast.Inspect(body, func(n ast.Node) bool {
+			if id, ok := n.(*ast.Ident); ok && shared[info.Uses[id]] && id.Pos() > firstGo && !inGoLit(id.Pos()) && !inLocalLit(id.Pos()) && !written[id.Pos()] && !atomicUse[id.Pos()] {
 				f.record(tname, id.Name, false, false, id)
 			}
 			return true
